@@ -161,6 +161,7 @@ class Engine:
         self.rb = ctx.rb
         self.interp = Interp(ctx)
         self.interp.on_construct = _on_construct
+        self.interp.construct_log = []
         self.R = {}             # key -> Shape
         self.runs = {}          # (rule name, index, shape keys) -> RuleRun
         self.fired = {}         # rule name -> number of non-None results
